@@ -1,5 +1,6 @@
 //! C19 — unit conversions and clock-time arithmetic: drive the real functions, evaluate
 //! the property predicates on what they return, emit cases for the model.
+use crate::backend::simple_manager;
 use crate::util::*;
 use kira::clock::{ClockSpeed, ClockTime};
 use kira::info::MockInfoBuilder;
@@ -139,6 +140,231 @@ fn apply_easing(e: Easing, x: f64) -> f64 {
 	Mapping { input_range: (0.0, 1.0), output_range: (0.0f64, 1.0f64), easing: e }.map(x)
 }
 
+/// exact order of ticks + fraction for finite fractions (also outside [0, 1)): compare (ticks + floor, fraction - floor)
+fn value_cmp(a: ClockTime, b: ClockTime) -> Option<std::cmp::Ordering> {
+	if !a.fraction.is_finite() || !b.fraction.is_finite() {
+		return None;
+	}
+	let n = |c: ClockTime| {
+		let fl = c.fraction.floor();
+		(c.ticks as i128 + fl as i128, c.fraction - fl)
+	};
+	n(a).partial_cmp(&n(b))
+}
+fn speed_code(sp: ClockSpeed) -> (i128, f64) {
+	match sp {
+		ClockSpeed::SecondsPerTick(v) => (0, v),
+		ClockSpeed::TicksPerSecond(v) => (1, v),
+		ClockSpeed::TicksPerMinute(v) => (2, v),
+	}
+}
+
+/// Clock times obtained from a `ClockHandle`: a real manager (backend owning the renderer), one ticking clock,
+/// `clock.time()` read right after every `on_start_processing()`.  The C19 clauses are evaluated on every
+/// reported time (fraction in [0, 1); ordering against the next whole tick and the previous report agrees with
+/// ticks + fraction; add-then-subtract round trip; ticks + fraction = elapsed time to rounding), and sampled
+/// reports go to the model (`CHandle`: one callback from the previous report; `CAddF`/`CSubF`/`CCmp` on them).
+fn handle_times(s: &mut Session, args: &Args, n: u64) {
+	// own stream, decorrelated between seeds: `Rng::new(seed)` streams of neighbouring seeds are shifts of one
+	// another and re-synchronise after a few variable-length draws; a fork starts from an output (hashed) value
+	let mut own = Rng::new(args.seed ^ 0xC19_0A).fork();
+	let rng = &mut own;
+	struct Cfg {
+		sr: u32,
+		buf: usize,
+		frames: usize,
+		speed: ClockSpeed,
+		callbacks: usize,
+		kind: &'static str,
+	}
+	let mut cfgs: Vec<Cfg> = vec![];
+	let long = if args.thorough { 8000 } else { 3000 };
+	// fixed corpus: ordinary settings (kira's defaults, 120 BPM); a tick is mathematically due at callback 375
+	cfgs.push(Cfg { sr: 48000, buf: 128, frames: 128, speed: ClockSpeed::TicksPerMinute(120.0), callbacks: 2000, kind: "handle_cfg_fixed" });
+	let n_ord = (if args.thorough { 400 } else { 60 }) * args.budget_mul;
+	let n_bnd = (if args.thorough { 400 } else { 40 }) * args.budget_mul;
+	for _ in 0..n_ord {
+		let sr = *rng.pick(&[8000u32, 11025, 16000, 22050, 32000, 44100, 48000, 88200, 96000, 192000]);
+		let buf = *rng.pick(&[32usize, 64, 128, 128, 256, 512, 1024, 100, 160, 441, 480]);
+		let frames = match rng.below(6) {
+			0 => buf * 2,
+			1 => buf * 4,
+			2 => buf + buf / 2,
+			3 => 1 + rng.below(buf as u64) as usize,
+			_ => buf,
+		};
+		let speed = match rng.below(3) {
+			0 => ClockSpeed::TicksPerMinute(*rng.pick(&[60.0, 80.0, 90.0, 100.0, 120.0, 128.0, 140.0, 150.0, 174.0, 180.0, 240.0, 480.0])),
+			1 => ClockSpeed::TicksPerSecond(*rng.pick(&[1.0, 2.0, 3.0, 4.0, 5.0, 8.0, 10.0, 25.0, 100.0, 375.0])),
+			_ => ClockSpeed::SecondsPerTick(*rng.pick(&[1.0, 0.5, 0.25, 0.2, 0.1, 0.05, 0.02, 0.01])),
+		};
+		cfgs.push(Cfg { sr, buf, frames, speed, callbacks: long, kind: "handle_cfg_ordinary" });
+	}
+	for i in 0..n_bnd {
+		let sr = *rng.pick(&[8000u32, 44100, 48000, 96000]);
+		let buf = *rng.pick(&[64usize, 128, 256, 441]);
+		let cdt = (1.0 / sr as f64) * buf as f64;
+		// the timer increment of one chunk lands on / next to these values
+		let p = |e: i32| (2.0f64).powi(e);
+		let targets = [
+			1.0 - p(-53), 1.0 - p(-40), 1.0 - p(-30), 1.0 - p(-26), 1.0 - p(-25), 1.0 - p(-24), 0.5 - p(-54), (1.0 - p(-30)) / 2.0,
+			(1.0 - p(-28)) / 3.0, 2.0 - p(-30), 1.0, 0.5, 1.0 + p(-52), 3.0 - p(-27),
+		];
+		let f = if (i as usize) < targets.len() { targets[i as usize] } else if rng.chance(1, 2) { 1.0 - rng.unit_f64() * p(-20) } else { (1.0 - rng.unit_f64() * p(-22)) / (1 + rng.below(5)) as f64 };
+		let speed = if rng.chance(1, 2) { ClockSpeed::TicksPerSecond(f / cdt) } else { ClockSpeed::SecondsPerTick(cdt / f) };
+		cfgs.push(Cfg { sr, buf, frames: buf, speed, callbacks: 48, kind: "handle_cfg_boundary" });
+	}
+	let model_cap = n / 2;
+	let mut model_sent = 0u64;
+	// (priority, case, what): the clause about the fraction first
+	let mut fails: Vec<(u8, String, String)> = vec![];
+	let mut per_kind = [0usize; 4];
+	let mut fail_hist: std::collections::BTreeMap<String, u64> = Default::default();
+	let mut near_one_by: std::collections::BTreeMap<&'static str, u64> = Default::default();
+	let mut near_one = 0u64;
+	let mut on_tick = 0u64;
+	for cfg in &cfgs {
+		s.count(cfg.kind);
+		let mut m = simple_manager(cfg.sr, cfg.buf);
+		let mut clock = m.add_clock(cfg.speed).unwrap();
+		clock.start();
+		let (sk, sx) = speed_code(cfg.speed);
+		let mut chunks: Vec<usize> = vec![cfg.buf; cfg.frames / cfg.buf];
+		if cfg.frames % cfg.buf != 0 {
+			chunks.push(cfg.frames % cfg.buf);
+		}
+		let chunk_list = format!("[{}]", chunks.iter().map(|c| c.to_string()).collect::<Vec<_>>().join("; "));
+		let dt = 1.0 / cfg.sr as f64;
+		let incs: Vec<f64> = chunks.iter().map(|&c| cfg.speed.as_ticks_per_second() * (dt * c as f64)).collect();
+		let inc_cb: f64 = incs.iter().sum();
+		let inc_max = incs.iter().cloned().fold(0.0, f64::max);
+		let mut out = vec![0.0f32; cfg.frames * 2];
+		let mut prev: Option<ClockTime> = None;
+		let mut sent_here = 0;
+		for k in 1..=cfg.callbacks {
+			m.backend_mut().r().on_start_processing();
+			// the game thread looks at the clock while the callback is running
+			let t = clock.time();
+			let mut fail = |kind: usize, what: String| {
+				per_kind[kind] += 1;
+				*fail_hist.entry(format!("{}_monitor_{}", cfg.kind, ["fraction_range", "order", "roundtrip", "elapsed"][kind])).or_insert(0) += 1;
+				if per_kind[kind] <= 3 {
+					let desc = format!(
+						"clock.time() after on_start_processing of callback {k} = ClockTime {{ ticks: {}, fraction: {:?} }} [device rate {}, internal buffer {}, callbacks of {} frames, {:?}, clock started before callback 1]",
+						t.ticks, t.fraction, cfg.sr, cfg.buf, cfg.frames, cfg.speed
+					);
+					fails.push((kind as u8, desc, what));
+				}
+			};
+			s.evaluations += 1;
+			if t.fraction >= 1.0 - (2.0f64).powi(-25) {
+				near_one += 1;
+				*near_one_by.entry(cfg.kind).or_insert(0) += 1;
+			}
+			// the fraction is in [0, 1)
+			if !(t.fraction >= 0.0 && t.fraction < 1.0) {
+				fail(0, format!("fraction {:?} outside [0, 1)", t.fraction));
+			}
+			// ordering agrees with ticks + fraction: against the start of the next tick ...
+			if t.ticks < u64::MAX {
+				let next = ClockTime::from_ticks_u64(&clock, t.ticks + 1);
+				let got = t.partial_cmp(&next);
+				let want = value_cmp(t, next);
+				if got != want {
+					fail(1, format!("partial_cmp with ClockTime {{ ticks: {}, fraction: 0.0 }} = {:?}, but ticks + fraction order = {:?}", next.ticks, got, want));
+				}
+			}
+			// ... and against the previous report
+			if let Some(p) = prev {
+				let got = p.partial_cmp(&t);
+				let want = value_cmp(p, t);
+				if got != want {
+					fail(1, format!("partial_cmp of the previous report ({}, {:?}) with this one = {:?}, but ticks + fraction order = {:?}", p.ticks, p.fraction, got, want));
+				}
+			}
+			// adding and then subtracting an amount returns the original time to rounding, fractions stay in [0, 1)
+			for amt in [0.25, rng.unit_f64() * 4.0] {
+				if let Outcome::Ok((c1, c2)) = catch(|| (t + amt, (t + amt) - amt)) {
+					for (c, op) in [(c1, "+"), (c2, "+ then -")] {
+						if !(c.fraction >= 0.0 && c.fraction < 1.0) {
+							fail(2, format!("{op} {amt:?}: fraction {:?} outside [0, 1)", c.fraction));
+						}
+					}
+					let d = (c2.ticks as i128 - t.ticks as i128) as f64 + (c2.fraction - t.fraction);
+					let tol = 4.0 * ulp(amt.max(1.0));
+					if !(d.abs() <= tol) || (t.fraction >= 0.0 && t.fraction < 1.0 && (c2.ticks as i128 - t.ticks as i128).abs() > 1) {
+						fail(2, format!("(time + {amt:?}) - {amt:?} = ({}, {:?}): off by {d:e} > {tol:e}", c2.ticks, c2.fraction));
+					}
+				} else {
+					fail(2, format!("(time + {amt:?}) - {amt:?} panicked"));
+				}
+			}
+			// ticks + fraction is the time that has passed, to rounding (each chunk: one rounded addition below 1 + increment)
+			{
+				let elapsed = (k - 1) as f64 * inc_cb;
+				let got = t.ticks as f64 + t.fraction;
+				let tol = ((k - 1) * chunks.len() + 4) as f64 * f64::EPSILON * (1.0 + inc_max) * 2.0 + elapsed * 8.0 * f64::EPSILON;
+				if inc_cb.is_finite() && elapsed < 1e15 && !((got - elapsed).abs() <= tol) {
+					fail(3, format!("ticks + fraction = {got:?} but {} callbacks advancing the timer by {inc_cb:?} have passed ({elapsed:?}): off by {:e} > {tol:e}", k - 1, got - elapsed));
+				}
+			}
+			// model cases
+			let ticked = prev.map_or(false, |p| p.ticks != t.ticks);
+			if ticked {
+				on_tick += 1;
+			}
+			let interesting = k <= 2 || (ticked && sent_here < 4) || t.fraction >= 1.0 - (2.0f64).powi(-20) || rng.chance(1, 400);
+			if interesting && model_sent < model_cap && sent_here < (if cfg.kind == "handle_cfg_fixed" { 24 } else { 6 }) {
+				sent_here += 1;
+				model_sent += 1;
+				if let Some(p) = prev {
+					s.case(
+						"handle_time",
+						format!("CHandle {} {} {} {} {} {}", p.ticks, f64_bits_z(p.fraction), sk, f64_bits_z(sx), cfg.sr, chunk_list),
+						&ct_obs(t),
+						Some(format!("h:{}:{}:{sk}:{}:{}:{chunk_list}", p.ticks, p.fraction.to_bits(), sx.to_bits(), cfg.sr)),
+					);
+				} else {
+					// nothing rendered yet: the clock reports (0, 0.0)
+					s.case("handle_time", format!("CHandle 0 0 {} {} {} []", sk, f64_bits_z(sx), cfg.sr), &ct_obs(t), None);
+				}
+				let amt = if rng.chance(1, 2) { 0.25 } else { gen_finite(rng).abs() % 64.0 };
+				let (tk, fr) = (t.ticks, t.fraction);
+				let o = catch(|| ct_obs(t + amt));
+				s.case("ct_add_f64_handle", format!("CAddF {} {} {}", tk, f64_bits_z(fr), f64_bits_z(amt)), &encode_outcome(&o), Some(format!("ha:{tk}:{}:{}", fr.to_bits(), amt.to_bits())));
+				let o = catch(|| ct_obs(t - amt));
+				s.case("ct_sub_f64_handle", format!("CSubF {} {} {}", tk, f64_bits_z(fr), f64_bits_z(amt)), &encode_outcome(&o), Some(format!("hs:{tk}:{}:{}", fr.to_bits(), amt.to_bits())));
+				let next = ClockTime::from_ticks_u64(&clock, t.ticks.wrapping_add(1));
+				let code = match t.partial_cmp(&next) {
+					Some(std::cmp::Ordering::Less) => 0,
+					Some(std::cmp::Ordering::Equal) => 1,
+					Some(std::cmp::Ordering::Greater) => 2,
+					None => 3,
+				};
+				s.case("ct_cmp_handle", format!("CCmp {} {} {} 0", tk, f64_bits_z(fr), next.ticks), &[code], Some(format!("hc:{tk}:{}", fr.to_bits())));
+			}
+			prev = Some(t);
+			m.backend_mut().r().process(&mut out, 2);
+		}
+	}
+	s.hist.insert("handle_time_reports".into(), cfgs.iter().map(|c| c.callbacks as u64).sum());
+	s.hist.insert("handle_time_fraction_within_2^-25_of_one".into(), near_one);
+	s.hist.insert("handle_time_reports_on_a_new_tick".into(), on_tick);
+	for (k, v) in near_one_by {
+		s.hist.insert(format!("{k}_fraction_within_2^-25_of_one"), v);
+	}
+	for (k, v) in fail_hist {
+		s.hist.insert(k, v);
+	}
+	if near_one == 0 {
+		s.fail("handle_times scenario".into(), "the generator produced no report whose fraction is within 2^-25 of 1 (the fixed corpus case should)".into(), None);
+	}
+	fails.sort_by_key(|f| f.0);
+	for (_, case, what) in fails {
+		s.fail(case, what, None);
+	}
+}
+
 pub fn run(args: &Args) {
 	let mut rng = Rng::new(args.seed ^ 0xC19);
 	let n: u64 = (if args.thorough { 20_000 } else { 1_200 }) * args.budget_mul;
@@ -148,7 +374,7 @@ pub fn run(args: &Args) {
 		"From Coq Require Import ZArith List. Import ListNotations. Open Scope Z_scope.\nFrom KV Require Import Base.Corr C19.Run.",
 		"run",
 		400,
-		"one case = one call of a public unit/clock-time function on generated arguments (special values, random bit patterns, dyadics, near-boundary fractions); distinct = distinct (function, argument bits); non-trivial = arguments are not all zero",
+		"one case = one call of a public unit/clock-time function on generated arguments (special values, random bit patterns, dyadics, near-boundary fractions), or one ClockHandle::time() report of a real clock driven callback by callback (ordinary and boundary tempo / rate / buffer combinations); distinct = distinct (function, argument bits); non-trivial = arguments are not all zero",
 	);
 	let mut info = MockInfoBuilder::new();
 	let cid = info.add_clock(true, 0, 0.0);
@@ -256,6 +482,9 @@ pub fn run(args: &Args) {
 			s.fail(format!("({tk},{fr:?}) cmp ({tk2},{fr2:?})"), format!("partial_cmp = {:?}, ticks+fraction order = {:?}", got, exact), None);
 		}
 	}
+
+	// ---------- clock times handed out by a ClockHandle ----------
+	handle_times(&mut s, args, n);
 
 	// ---------- clock speed ----------
 	for _ in 0..n / 2 {
@@ -427,7 +656,10 @@ pub fn run(args: &Args) {
 		}
 		if db > -60.0 && db.is_finite() && db != 0.0 {
 			let want = 10f64.powf(db as f64 / 20.0);
-			if want < 3.0e38 && want > 1e-37 && ((a as f64 - want) / want).abs() > 2e-6 {
+			// to binary32 rounding: the exponent dB/20 is itself rounded to binary32 (half an ulp of it moves
+			// 10^x by |x| * 2^-24 * ln 10 relatively: 4.8e-6 at 700 dB), then powf and its result rounding
+			let tol = (2e-6f64).max((db as f64 / 20.0).abs() * (2.0f64).powi(-24) * std::f64::consts::LN_10 * 1.01 + 3.0 * (2.0f64).powi(-24));
+			if want < 3.0e38 && want > 1e-37 && ((a as f64 - want) / want).abs() > tol {
 				s.fail(format!("Decibels({db:?})"), format!("amplitude {a:?} but 10^(dB/20) = {want:?}"), None);
 			}
 		}
